@@ -13,9 +13,18 @@ import (
    I will be making some changes to the grammar but I do want it to be as close to the specification as possible
 */
 
-func parse_regexp(tokens []*Token, token_index int) (AstExpression, int, error) {
+func parse_regexp(tokens []*Token, token_index int) (result AstExpression, next_index int, parse_error error) {
 	regexp_token := tokens[token_index]
 	regexp := regexp_token.Lexeme
+
+	// the sub-parser indexes the body without checking its length and panics
+	// on the unimplemented look-around groups: a malformed or unsupported
+	// body is a parse error
+	defer func() {
+		if r := recover(); r != nil {
+			result, next_index, parse_error = nil, token_index, NewParseError(regexp_token, fmt.Sprintf("Malformed or unsupported regular expression: %v", r))
+		}
+	}()
 
 	results, _, err := parse_regexp_disjunction(regexp_token, regexp, 0)
 	if err != nil {
@@ -287,6 +296,8 @@ func parse_regexp_quantifier(regexp_token *Token, regexp string, index int) (*As
 		} else if comma_or_brace == '}' {
 			exp = &AstLoop{from, from, false, nil, ""}
 			end_idx = idx + 1
+		} else {
+			return nil, idx, NewParseError(regexp_token, "Unexpected character. Expected ',' or '}'")
 		}
 	} else {
 		exp = nil
